@@ -249,6 +249,70 @@ static mpq_QSdata *build_lp (void)
 	return p;
 }
 
+/* the same LP built "column generation" style: all rows first (empty), then every column with
+ * mpq_QSadd_col - the structural columns then sit behind the logical ones (structmap is not the identity) */
+static mpq_QSdata *build_lp_cg (void)
+{
+	int nc, nr, i, j, k, kk, rv = 0, tot = 0, cap = 64;
+	const char *t = tok ();
+	mpq_QSdata *p;
+	mpq_t *obj, *lo, *up, *rhs, *rng, *ev;
+	char *sense;
+	int *er, *ec;
+	char nm[32];
+	if (strcmp (t, "lp")) { printf ("bad-op expected-lp\n.\n"); fflush (PO); exit (3); }
+	t = tok ();
+	p = mpq_QScreate_prob ("P", !strcmp (t, "max") ? QS_MAX : QS_MIN);
+	nc = tok_int ();
+	nr = tok_int ();
+	obj = mpq_EGlpNumAllocArray (nc + 1); lo = mpq_EGlpNumAllocArray (nc + 1); up = mpq_EGlpNumAllocArray (nc + 1);
+	rhs = mpq_EGlpNumAllocArray (nr + 1); rng = mpq_EGlpNumAllocArray (nr + 1);
+	sense = (char *) malloc (nr + 1);
+	ev = mpq_EGlpNumAllocArray (cap);
+	er = (int *) malloc (cap * sizeof (int)); ec = (int *) malloc (cap * sizeof (int));
+	for (i = 0; i < nc; i++) { tok_q (obj[i]); tok_q (lo[i]); tok_q (up[i]); }
+	for (i = 0; i < nr; i++)
+	{
+		sense[i] = tok ()[0];
+		tok_q (rhs[i]); tok_q (rng[i]);
+		k = tok_int ();
+		for (kk = 0; kk < k; kk++)
+		{
+			if (tot + 1 >= cap)
+			{
+				int ncap = cap * 2, q;
+				mpq_t *nv = mpq_EGlpNumAllocArray (ncap);
+				for (q = 0; q < tot; q++) mpq_set (nv[q], ev[q]);
+				mpq_EGlpNumFreeArray (ev);
+				ev = nv;
+				er = (int *) realloc (er, ncap * sizeof (int)); ec = (int *) realloc (ec, ncap * sizeof (int));
+				cap = ncap;
+			}
+			er[tot] = i; ec[tot] = tok_int (); tok_q (ev[tot]); tot++;
+		}
+	}
+	for (i = 0; i < nr; i++)
+	{
+		sprintf (nm, "c%d", i);
+		rv |= mpq_QSadd_ranged_row (p, 0, 0, 0, (const mpq_t *) & rhs[i], sense[i], (const mpq_t *) & rng[i], nm);
+	}
+	for (j = 0; j < nc; j++)
+	{
+		int cnt = 0, *ind = (int *) malloc (sizeof (int) * (tot + 1));
+		mpq_t *val = mpq_EGlpNumAllocArray (tot + 1);
+		for (k = 0; k < tot; k++) if (ec[k] == j) { ind[cnt] = er[k]; mpq_set (val[cnt], ev[k]); cnt++; }
+		sprintf (nm, "x%d", j);
+		rv |= mpq_QSadd_col (p, cnt, ind, val, obj[j], lo[j], up[j], nm);
+		free (ind);
+		mpq_EGlpNumFreeArray (val);
+	}
+	mpq_EGlpNumFreeArray (obj); mpq_EGlpNumFreeArray (lo); mpq_EGlpNumFreeArray (up);
+	mpq_EGlpNumFreeArray (rhs); mpq_EGlpNumFreeArray (rng); mpq_EGlpNumFreeArray (ev);
+	free (sense); free (er); free (ec);
+	if (rv) { printf ("bad-op build-failed\n.\n"); fflush (PO); exit (3); }
+	return p;
+}
+
 /* raw internal LP in API order (structmap / rowmap applied) */
 void dump_ilp (mpq_QSdata * p)
 {
@@ -403,6 +467,14 @@ static void cmd_new (void)
 	SLOT[k] = build_lp ();
 	printf ("ok\n");
 }
+static void cmd_newcg (void)
+{
+	int k = tok_int ();
+	if (k < 0 || k >= NSLOT) { printf ("bad-op slot\n"); return; }
+	if (SLOT[k]) mpq_QSfree_prob (SLOT[k]);
+	SLOT[k] = build_lp_cg ();
+	printf ("ok\n");
+}
 static void cmd_free (void)
 {
 	int k = tok_int ();
@@ -549,6 +621,7 @@ int main (int argc, char **argv)
 		}
 		if (!strcmp (c, "inf")) cmd_inf ();
 		else if (!strcmp (c, "new")) cmd_new ();
+		else if (!strcmp (c, "newcg")) cmd_newcg ();
 		else if (!strcmp (c, "free")) cmd_free ();
 		else if (!strcmp (c, "opttest")) cmd_opttest ();
 		else if (!strcmp (c, "inftest")) cmd_inftest ();
